@@ -393,6 +393,7 @@ fn extra_programs() -> Vec<ArgCase> {
         }
         out.push(ArgCase { prog: Prog { main, subs, declare: true, ..Default::default() }, label: format!("array element by reference: {}", label), expect_reject: false });
     }
+    out.extend(multi_element_programs());
     // a STATIC subprogram that calls itself: its variables are shared by the activations, its parameters are not
     for variant in 0..5 {
         for depth in 1..=3 {
@@ -490,6 +491,82 @@ fn extra_programs() -> Vec<ArgCase> {
         let f = SubDef { id, name: "Sum%".into(), is_function: true, params: vec![Param { name: "N%".into(), ty: None, is_array: false }], body, is_static: false };
         let main = vec![b.assign(var("L%"), num(99)), b.print(vec![call("Sum%", vec![num(depth)])]), b.print(vec![var("L%")])];
         out.push(ArgCase { prog: Prog { main, subs: vec![f], declare: true, ..Default::default() }, label: format!("recursion depth {}", depth), expect_reject: false });
+    }
+    out
+}
+
+/// Several array elements (and fields of array elements) by reference in ONE call, with variable subscripts.
+pub fn multi_element_programs() -> Vec<ArgCase> {
+    let mut out = vec![];
+    for variant in 0..6 {
+        let mut b = B::new();
+        let p_int = |n: &str| Param { name: n.into(), ty: None, is_array: false };
+        // SUB Exchange (P%, Q%): T% = P%: P% = Q%: Q% = T%      SUB Three (P%, Q%, R%): P% = P% + 100: Q% = Q% + 200: R% = R% + 300
+        let body = vec![b.assign(var("T%"), var("P%")), b.assign(var("P%"), var("Q%")), b.assign(var("Q%"), var("T%"))];
+        let id = b.id();
+        let exchange = SubDef { id, name: "Exchange".into(), is_function: false, params: vec![p_int("P%"), p_int("Q%")], body, is_static: false };
+        let body = vec![
+            b.assign(var("P%"), bin(BinOp::Add, var("P%"), num(100))),
+            b.assign(var("Q%"), bin(BinOp::Add, var("Q%"), num(200))),
+            b.assign(var("R%"), bin(BinOp::Add, var("R%"), num(300))),
+        ];
+        let id = b.id();
+        let three = SubDef { id, name: "Three".into(), is_function: false, params: vec![p_int("P%"), p_int("Q%"), p_int("R%")], body, is_static: false };
+        let types = vec![TypeDef { name: "Pt".into(), fields: vec![("N".into(), DeclTy::Scalar(Ty::Int)), ("M".into(), DeclTy::Scalar(Ty::Int))] }];
+        let el = |e: Expr| Expr::Index("A%".into(), vec![e]);
+        let el2 = |e: Expr, f: Expr| Expr::Index("G%".into(), vec![e, f]);
+        let fld = |e: Expr, name: &str| Expr::Field(Box::new(Expr::Index("R".into(), vec![e])), name.into());
+        let mut main = vec![
+            b.s(K::Dim { shared: false, redim: false, vars: vec![DimVar { name: "A%".into(), ty: None, dims: vec![(Some(num(1)), num(4))] }] }),
+            b.s(K::Dim { shared: false, redim: false, vars: vec![DimVar { name: "G%".into(), ty: None, dims: vec![(Some(num(1)), num(2)), (Some(num(1)), num(2))] }] }),
+            b.s(K::Dim { shared: false, redim: false, vars: vec![DimVar { name: "R".into(), ty: Some(DeclTy::Rec("Pt".into())), dims: vec![(Some(num(1)), num(3))] }] }),
+        ];
+        for i in 1..=4 {
+            main.push(b.assign(el(num(i)), num(i * 10)));
+        }
+        for i in 1..=2 {
+            for j in 1..=2 {
+                main.push(b.assign(el2(num(i), num(j)), num(i * 10 + j)));
+            }
+        }
+        for i in 1..=3 {
+            main.push(b.assign(fld(num(i), "N"), num(i)));
+            main.push(b.assign(fld(num(i), "M"), num(i + 5)));
+        }
+        main.push(b.assign(var("I%"), num(1)));
+        main.push(b.assign(var("J%"), num(3)));
+        main.push(b.assign(var("K%"), num(2)));
+        let label = match variant {
+            0 => {
+                main.push(b.s(K::Call("Exchange".into(), vec![el(var("I%")), el(var("J%"))])));
+                "two elements of one array with variable subscripts"
+            }
+            1 => {
+                main.push(b.s(K::Call("Three".into(), vec![el(var("J%")), el(var("I%")), el(var("K%"))])));
+                "three elements of one array with variable subscripts"
+            }
+            2 => {
+                main.push(b.s(K::Call("Exchange".into(), vec![fld(var("I%"), "N"), fld(var("J%"), "N")])));
+                "the same field of two elements of an array of records"
+            }
+            3 => {
+                main.push(b.s(K::Call("Exchange".into(), vec![el2(var("I%"), var("K%")), el2(var("K%"), var("I%"))])));
+                "two elements of a matrix with transposed variable subscripts"
+            }
+            4 => {
+                main.push(b.s(K::Call("Three".into(), vec![el(bin(BinOp::Add, var("I%"), num(1))), fld(var("K%"), "M"), el2(var("K%"), var("K%"))])));
+                "an element, a field of a record element and a matrix element"
+            }
+            _ => {
+                main.push(b.s(K::Call("Exchange".into(), vec![el(var("I%")), el(num(4))])));
+                main.push(b.s(K::Call("Exchange".into(), vec![el(var("K%")), el(var("K%"))])));
+                "a variable and a literal subscript; the same element twice"
+            }
+        };
+        main.push(b.print((1..=4).map(|i| el(num(i))).collect()));
+        main.push(b.print(vec![el2(num(1), num(1)), el2(num(1), num(2)), el2(num(2), num(1)), el2(num(2), num(2))]));
+        main.push(b.print((1..=3).flat_map(|i| [fld(num(i), "N"), fld(num(i), "M")]).collect()));
+        out.push(ArgCase { prog: Prog { types, main, subs: vec![exchange, three], declare: true, ..Default::default() }, label: format!("several array elements by reference in one call: {}", label), expect_reject: false });
     }
     out
 }
